@@ -455,22 +455,19 @@ def step (st : St) (line : Str) : Except Err St :=
     | none => .ok st
   | .sect typ hdr members =>
     let s := strip line
-    match s with
-    | '~' :: _ =>
+    if s.head? = some '~' then
       match finaliseSect st typ members with
       | .ok st' => topLevel st' s
       | .error e => .error e
-    | [] => .ok st
-    | _ =>
-      if hdr then
-        match lineToSectLine s with
-        | .ok l => .ok { st with cur := .sect typ hdr (.line l :: members) }
-        | .error e => .error e
-      else .ok { st with cur := .sect typ hdr (.raw s :: members) }
+    else if s.isEmpty then .ok st
+    else if hdr then
+      match lineToSectLine s with
+      | .ok l => .ok { st with cur := .sect typ hdr (.line l :: members) }
+      | .error e => .error e
+    else .ok { st with cur := .sect typ hdr (.raw s :: members) }
   | .arr a =>
-    match line with
-    | '~' :: _ => .error .sectAfterArray
-    | _ =>
+    if line.head? = some '~' then .error .sectAfterArray
+    else
       match arrAddLine a line with
       | .ok a' => .ok { st with cur := .arr a' }
       | .error e => .error e
